@@ -28,7 +28,8 @@ CHECKS = [
     ("C01", "JoinLike, Race, Merge, Zip, Chain, WaitUntil, Groups, CoStream, Nest",
      "no lost wake-ups: parked / mid-poll / progress-at-quiescence obligations over every recorded execution, incl. fresh parent waker per poll, "
      "stale and repeated wakes, wakes from other threads (thread mode: hang detection at quiescence), one level of nesting; plus the core of the "
-     "sub-waker protocol as an inductive invariant discharged by Apalache (specs/apalache/ReadinessProto.tla: unbounded polls and wake-ups, N <= 5).", "0, 7 (C01), 2, 5, 6"),
+     "sub-waker protocol as an inductive invariant proved with TLAPS for every number of children (specs/tlaps/ReadinessProof.tla, 40 obligations) and "
+     "discharged by Apalache with the ready counter for N <= 5 (specs/apalache/ReadinessProto.tla): unbounded polls and wake-ups.", "0, 7 (C01), 2, 5, 6"),
     ("C02", "JoinLike, Race, Merge, Zip, Chain, WaitUntil, Groups, CoStream, Nest",
      "exactly-once ownership: drop ledger (children, values, canaries) over executions with cancellation at every point and a panic injected at any child poll.", "7 (C02)"),
     ("C03", "JoinLike, Race, Merge, Zip, Chain, WaitUntil, Groups, CoStream, Nest",
